@@ -44,10 +44,13 @@ class Dm14World:
         self.w = W.World(latency=lat, wake_eps=p.get("eps", [0.0, 1e-5]), dispatch=p.get("disp", [0.0, 1e-5]), **bus_kw)
         w = self.w
         cm = p.get("max_cmdt", [1, 1])
+        self.sa_c = p.get("sa_c", SA_C)      # requester / server / intruder addresses are scenario data
+        self.sa_s = p.get("sa_s", SA_S)
+        self.sa_i = p.get("sa_i", SA_I)
         self.cs = w.stack("C", dll="j1939-21", max_cmdt=cm[0])
         self.ss = w.stack("S", dll="j1939-21", max_cmdt=cm[1])
-        self.cca = self.cs.add_ca("c", 0x100, SA_C)
-        self.sca = self.ss.add_ca("s", 0x200, SA_S)
+        self.cca = self.cs.add_ca("c", 0x100, self.sa_c)
+        self.sca = self.ss.add_ca("s", 0x200, self.sa_s)
         self.client = j.MemoryAccess(self.cca)
         self.server = j.MemoryAccess(self.sca)
         self.proceed_calls = []      # (t, args)
@@ -119,11 +122,11 @@ class Dm14World:
                 res = {"tx": ti, "t0": t0}
                 try:
                     if tx["op"] == "read":
-                        v = self.client.read(SA_S, tx["direct"], tx["addr"], tx["count"], tx["size"], tx.get("signed", False),
+                        v = self.client.read(self.sa_s, tx["direct"], tx["addr"], tx["count"], tx["size"], tx.get("signed", False),
                                              tx.get("raw", False), tx.get("max_timeout", 3))
                         res["value"] = list(v) if v is not None else None
                     else:
-                        v = self.client.write(SA_S, tx["direct"], tx["addr"], list(tx["values"]), tx["size"], tx.get("max_timeout", 3))
+                        v = self.client.write(self.sa_s, tx["direct"], tx["addr"], list(tx["values"]), tx["size"], tx.get("max_timeout", 3))
                         res["value"] = v
                 except BaseException as e:  # noqa
                     if isinstance(e, (sk.SimShutdown, sk.SpinDetected)):
